@@ -181,6 +181,39 @@ fn witnesses() -> Vec<Case> {
     idx.extend(rec8(3, 1, 0)); // 2 zero-syllable sibling
     idx.extend(rec8(0, d1.len() as u16, 0)); // 3 leaf
     v.push(doc_case("witness-F17-later-sibling".into(), &idx, &d1));
+    // one file per clause of `validate_index` that no other clause rejects
+    // (a) child range not after the node, on a record no node points at (the order clause holds: 2 >= next = 2)
+    let mut idx = vec![];
+    idx.extend(rec8(1, 1, 0)); // 0 root -> [1,2)
+    idx.extend(rec8(0, d1.len() as u16, 0)); // 1 leaf
+    idx.extend(rec8(2, 1, CE4)); // 2 -> [2,3): itself
+    v.push(doc_case("clause-child-range-not-after-node".into(), &idx, &d1));
+    // (b) child range beyond the index
+    let mut idx = vec![];
+    idx.extend(rec8(1, 2, 0)); // 0 root -> [1,3) of 2 records
+    idx.extend(rec8(0, d1.len() as u16, 0));
+    v.push(doc_case("clause-child-range-beyond-index".into(), &idx, &d1));
+    // (c) child ranges out of order (the second node points in front of the first node's children)
+    let mut idx = vec![];
+    idx.extend(rec8(1, 2, 0)); // 0 root -> [1,3)
+    idx.extend(rec8(4, 1, CE4)); // 1 -> [4,5)
+    idx.extend(rec8(3, 1, SHI4)); // 2 -> [3,4)
+    idx.extend(rec8(0, d1.len() as u16, 0));
+    idx.extend(rec8(0, d1.len() as u16, 0));
+    v.push(doc_case("clause-child-ranges-out-of-order".into(), &idx, &d1));
+    // (d) leaf data beyond the phrase bytes
+    let mut idx = vec![];
+    idx.extend(rec8(1, 1, 0));
+    idx.extend(rec8(1, d1.len() as u16, 0));
+    v.push(doc_case("clause-leaf-data-beyond-phrases".into(), &idx, &d1));
+    // (e) accepted: gaps between child ranges, an unused record, an empty child range
+    let mut idx = vec![];
+    idx.extend(rec8(2, 1, 0)); // 0 root -> [2,3)
+    idx.extend(rec8(0, 0, 0)); // 1 unused leaf-shaped record
+    idx.extend(rec8(4, 1, CE4)); // 2 -> [4,5)
+    idx.extend(rec8(5, 0, SHI4)); // 3 unused node with an empty range
+    idx.extend(rec8(0, d1.len() as u16, 0)); // 4 leaf
+    v.push(doc_case("clause-gaps-accepted".into(), &idx, &d1));
     // F39 (dictionary-file form): a *valid* file, written by `TrieBuilder`, with an entry under the
     // empty key; the traversals are fine, every conversion of a context over it aborts
     v.push(Case {
